@@ -5,14 +5,18 @@ import os
 
 import vlib
 
-PATTERNS = ["", "a", "ab", "abc", "b", "x", "ab c"]
-NTEXTS = 12
+# pattern pool of harness/hn/src/nucleo_cmd.rs: (column 0 text, column 1 text); ids 0..6 = the earlier one-column pool
+PATTERN_PAIRS = [("", ""), ("a", ""), ("ab", ""), ("abc", ""), ("b", ""), ("x", ""), ("ab c", ""),
+                 ("", "p"), ("a", "p"), ("ab", "q"), ("a", "pq"), ("b", "p"), ("ab", "p"), ("a", "q")]
+# display names (used in oracle messages): "col0" for the one-column entries, "col0|col1" otherwise
+PATTERNS = [a if not b else "%s|%s" % (a, b) for a, b in PATTERN_PAIRS]
+NTEXTS = 24
 
-TRUSTED = ["interleavings at the granularity of the cfg(nucleo_verif) yield points in tick_inner / Worker::run / Injector::push (the worker's state is only touched under its mutex, so finer interleavings differ only in what the scan sees, which the model over-approximates with a parameter)",
+TRUSTED = ["interleavings at the granularity of the cfg(nucleo_verif) yield points in tick_inner / Worker::run / Injector::push / Injector::extend (the worker's state is only touched under its mutex, so finer interleavings differ only in what the scan sees, which the model over-approximates with a parameter)",
            "the scheduler harness (harness/hn/src/sched.rs, nucleo_cmd.rs) parks the UI thread, the single pool thread and injector threads at the yield points; timeouts are scheduler decisions (timeout 0 while the run is parked = 'tick times out')",
-           "scores and column lengths used by the protocol model are a table computed by the real Pattern::score for the pattern pool x text pool of the harness (the matcher itself is C01-C05)",
+           "scores and total column lengths used by the protocol model are a table computed by the real MultiPattern::score (both columns) for the pattern pool x text pool of the harness (the matcher itself is C01-C05)",
            "rayon: spawn hands the closure to exactly one pool thread; parking_lot::Mutex: mutual exclusion; Arc: strong count = live handles"]
-ASSUMPTIONS = ["one matcher column, one pool thread in the harness (the model's scan parameter covers any number of scanning threads)", "matcher configuration fixed for the lifetime of the stream"]
+ASSUMPTIONS = ["two matcher columns, one pool thread in the harness (the model's scan parameter covers any number of scanning threads)", "matcher configuration fixed for the lifetime of the stream"]
 
 
 def prepare(ctx):
@@ -91,7 +95,7 @@ class Track:
     def __init__(self):
         self.inj = {}          # handle -> stream number (0, 1, ... incremented by restart)
         self.stream = 0
-        self.pushes = {}       # thread -> dict(h, g, stage, stream, idx)
+        self.pushes = {}       # thread -> dict(g, stage, stream, idx) for push; + ext, n, step, chunk, pub for extend
         self.items = {}        # stream -> list of g in index order (reserved order)
         self.published = {}    # stream -> set of idx
         self.pattern = 0
@@ -110,6 +114,25 @@ class Track:
             self.pattern = int(p[1])
         elif p[0] == "push" and p[2] in self.inj:
             self.pushes[p[1]] = {"g": int(p[3]), "stage": 0, "stream": self.inj[p[2]], "idx": None}
+        elif p[0] == "ext" and p[2] in self.inj:
+            n = int(p[4])
+            self.pushes[p[1]] = {"g": int(p[3]), "stage": 0, "stream": self.inj[p[2]], "idx": None, "ext": True, "n": n,
+                                 "step": int(p[5]) if len(p) > 5 else 1, "chunk": max(1, int(p[6])) if len(p) > 6 else n, "pub": 0}
+        elif p[0] == "st" and p[1] in self.pushes and self.pushes[p[1]].get("ext"):
+            # Injector::extend: all n indices are reserved at once (extend.reserved), then published in index order,
+            # `chunk` per step; the step that publishes the last one also notifies and returns (E<first index>)
+            t = self.pushes[p[1]]
+            if t["stage"] == 0 and ob == "Yext_res":
+                t["stage"] = 1
+                lst = self.items.setdefault(t["stream"], [])
+                t["idx"] = len(lst)
+                lst.extend(t["g"] + k * t["step"] for k in range(t["n"]))
+            elif t["stage"] == 1 and (ob == "Yext_pub" or ob.startswith("E")):
+                m = t["n"] - t["pub"] if ob.startswith("E") else min(t["chunk"], t["n"] - t["pub"])
+                self.published.setdefault(t["stream"], set()).update(range(t["idx"] + t["pub"], t["idx"] + t["pub"] + m))
+                t["pub"] += m
+                if ob.startswith("E"):
+                    t["stage"] = 2
         elif p[0] == "st" and p[1] in self.pushes:
             t = self.pushes[p[1]]
             if t["stage"] == 0 and ob == "Yres":
@@ -142,7 +165,7 @@ def generic(ctx, oracle, rule, nhist=None, extra_seed=0):
             evs = line.split(";")
             res["disagreements"].append({"what": "history `%s`: observation %d (event `%s`) differs: implementation `%s`, model `%s`" % (
                 line[:400], k, evs[k] if k < len(evs) else "?", io[k] if k < len(io) else "-", mo[k] if k < len(mo) else "-"), "case": line})
-        if "run" in line and ("Yres" in io):
+        if "run" in line and ("Yres" in io or "Yext_res" in io):
             nt += 1
         if io and io[0].startswith("CRASH"):
             res["failures"].append({"class": "crash", "what": "the library crashed (panic / abort inside the worker) on this history: %s -- history: %s" % (io[0][:300], line[:500]), "case": line})
@@ -156,12 +179,20 @@ def generic(ctx, oracle, rule, nhist=None, extra_seed=0):
     return res
 
 
-RULE = ("model-guided random walks (the extracted protocol model enumerates the ENABLED events; 8 styles: general, writers parked between reservation and publication, restart-heavy, "
+RULE = ("model-guided random walks over a Nucleo with TWO matcher columns (the extracted protocol model enumerates the ENABLED events; 12 styles: general, writers parked between reservation and publication, restart-heavy, "
         "zero-timeout ticks racing the end of the run, no initial items, cancel-heavy, retype = the worker settles on a pattern and the history ends with a non-append edit directly "
-        "followed by an append edit, stale run at restart = a finished but uncollected run, restart, a zero-timeout tick that times out on the first run over the new stream, observations): injector threads pushing items of a 12-text pool, pattern edits over a 7-pattern pool with truthful append "
-        "flags, restarts, ticks with timeout 0 or long, each thread parked at every yield point and stepped by the schedule; every history winds down to quiescence (writers finish, "
+        "followed by an append edit, stale run at restart = a finished but uncollected run, restart, a zero-timeout tick that times out on the first run over the new stream, observations, "
+        "bulk = the history starts with one or two Injector::extend calls of 25-60 items cycling through a few pool texts so that more than 20 matches tie on (score, total length) interleaved with others, "
+        "cancelled run then empty pattern = a run parked before its sort is cancelled by a tick whose edit is the empty pattern, "
+        "scan cancelled by an append edit = a run parked at run.start that will take the scoring scan over new items, an append edit, a tick that sets the cancel flag before the scan, "
+        "two columns typed between two ticks = column 1 replaced and column 0 extended without a tick in between): "
+        "injector threads pushing items (Injector::push) or batches (Injector::extend: the whole range reserved at once, published in index order in chunks chosen by the schedule) of a 24-entry pool of (column 0, column 1) texts whose total length differs from the column 0 length, "
+        "pattern edits over a 14-entry pool of (column 0, column 1) pattern texts - every column whose text changes is reparsed, with truthful append "
+        "flags (the model's single edit event carries 'every changed column was an append', exact because the real status is the maximum over the columns) -, restarts, ticks with timeout 0 or long, each thread parked at every yield point and stepped by the schedule; every history winds down to quiescence (writers finish, "
         "ticks until running = false). Every observation (tick status, snapshot pattern/count/matches/item data, active_injectors, notify count) is compared with the extracted model "
-        "and checked by the property oracle (C13's oracle also compares the lock state reported at the run's post-unlock sites with the model's). Non-trivial = history with a background run and at least one writer parked mid-push.")
+        "and checked by the property oracle (C13's oracle also compares the lock state reported at the run's post-unlock sites with the model's, and checks what the notify callback saw when a push / extend called it: "
+        "the items of that call reserved, counted by injected_items() and readable). Scores (MultiPattern::score over both columns) and TOTAL column lengths come from the harness table. "
+        "Non-trivial = history with a background run and at least one writer parked mid-push / mid-extend.")
 
 
 def replay(path):
